@@ -38,7 +38,8 @@ package heap
 
 //@ pred syncedAll(h) = forall k int {h.a[k]} :: 0 <= k && k < len(h.a) ==> h.indexChanged.N[keyOf(h.a[k])] == k
 //@ pred synced(h) = h.indexChanged.tracks ==> syncedAll(h)
-//@ pred wfH(h) = fns(h) && heapOK(h) && synced(h)
+//@ pred wfH(h) = fns(h) && heapOK(h) && synced(h) && h.gen >= 0
+//@ pred tiH(h) = h.gen >= old(h.gen) && (len(h.a) != old(len(h.a)) ==> h.gen > old(h.gen)) && (h.gen == old(h.gen) ==> row(old(h.a)) == old(row(h.a)))
 //@ pred same(h) = h.a == old(h.a) && h.lessFn == old(h.lessFn) && h.indexChanged == old(h.indexChanged) && h.gen == old(h.gen)
 
 //@ callback Heap.indexChanged(h, x, i)
@@ -121,6 +122,7 @@ package heap
 //@   ensures wfH(h) && len(h.a) == old(len(h.a)) + 1 && h.gen > old(h.gen) && h.lessFn == old(h.lessFn) && h.indexChanged == old(h.indexChanged)
 //@   ensures mapsTo(h) && h.indexChanged.bn == old(len(h.a)) + 1 && h.indexChanged.gone == -1 && h.indexChanged.base[old(len(h.a))] == item
 //@   ensures forall j int {h.indexChanged.base[j]} :: 0 <= j && j < old(len(h.a)) ==> h.indexChanged.base[j] == old(h.a[j])
+//@   ensures C15: tiH(h)
 
 //@ func Heap.Pop
 //@   props C05 C15
@@ -140,6 +142,7 @@ package heap
 //@   ensures mapsTo(h) && h.indexChanged.bn == old(len(h.a)) && h.indexChanged.gone == 0
 //@   ensures forall j int {h.indexChanged.base[j]} :: 0 <= j && j < old(len(h.a)) ==> h.indexChanged.base[j] == old(h.a[j])
 //@   ensures forall k int {h.a[k]} :: 0 <= k && k < len(h.a) ==> !h.lessFn(h.a[k], result)
+//@   ensures C15: tiH(h)
 
 //@ func Heap.RemoveAt
 //@   props C05 C15
@@ -157,6 +160,7 @@ package heap
 //@   ensures wfH(h) && len(h.a) == old(len(h.a)) - 1 && h.gen > old(h.gen) && h.lessFn == old(h.lessFn) && h.indexChanged == old(h.indexChanged)
 //@   ensures mapsTo(h) && h.indexChanged.bn == old(len(h.a)) && h.indexChanged.gone == i
 //@   ensures forall j int {h.indexChanged.base[j]} :: 0 <= j && j < old(len(h.a)) ==> h.indexChanged.base[j] == old(h.a[j])
+//@   ensures C15: tiH(h)
 
 //@ func Heap.UpdateAt
 //@   props C05 C15
@@ -173,7 +177,7 @@ package heap
 //@   ensures wfH(h) && len(h.a) == old(len(h.a)) && h.lessFn == old(h.lessFn) && h.indexChanged == old(h.indexChanged)
 //@   ensures mapsTo(h) && h.indexChanged.bn == len(h.a) && h.indexChanged.gone == -1 && h.indexChanged.base[i] == item
 //@   ensures forall j int {h.indexChanged.base[j]} :: 0 <= j && j < len(h.a) && j != i ==> h.indexChanged.base[j] == old(h.a[j])
-//@   ensures C15: h.gen > old(h.gen)
+//@   ensures C15: h.gen > old(h.gen) && tiH(h)
 
 //@ pred distinctKeys(s) = forall k1 int, k2 int {s[k1], s[k2]} {hint(k1), hint(k2)} :: 0 <= k1 && k1 < k2 && k2 < len(s) ==> keyOf(s[k1]) != keyOf(s[k2])
 
@@ -207,6 +211,7 @@ package heap
 //@   panics when n < 0
 //@   ensures wfH(h) && len(h.a) == old(len(h.a)) && h.gen == old(h.gen) && h.lessFn == old(h.lessFn) && h.indexChanged == old(h.indexChanged)
 //@   ensures forall k int {h.a[k]} :: 0 <= k && k < len(h.a) ==> h.a[k] == old(h.a[k])
+//@   ensures C15: tiH(h)
 
 //@ func Heap.Shrink
 //@   props C05 C15
@@ -215,3 +220,60 @@ package heap
 //@   panics when n < 0
 //@   ensures wfH(h) && len(h.a) == old(len(h.a)) && h.gen == old(h.gen) && h.lessFn == old(h.lessFn) && h.indexChanged == old(h.indexChanged)
 //@   ensures forall k int {h.a[k]} :: 0 <= k && k < len(h.a) ==> h.a[k] == old(h.a[k])
+//@   ensures C15: tiH(h)
+// ---- iterator (C15): snapshot taken at the first Next, panics once the generation has moved ----
+
+//@ pred hiStable(iter) = iter.h != nil && iter.h.gen >= 0 && (iter.gen == -1 || (0 <= iter.gen && iter.gen <= iter.h.gen && iter.inner != nil
+//@      && dyntype(iter.inner) == typeof("iterator.sliceIterator")
+//@      && (iter.gen == iter.h.gen ==> slRep(iter.inner.(*iterator.sliceIterator[T]), iter.inner))))
+
+//@ func Heap.Iterate
+//@   props C15
+//@   ensures fresh(result) && result.(*heapIterator[T]).h == h && result.(*heapIterator[T]).gen == -1
+
+//@ func heapIterator.Next
+//@   props C15
+//@   requires hiStable(iter)
+//@   modifies iter.gen, iter.inner, iter.inner.pos, iter.inner.pulls, iter.inner.(*iterator.sliceIterator[T]).a
+//@   panics when iter.gen != -1 && iter.gen != iter.h.gen
+//@   dispatch Next[0] iterator.sliceIterator.Next
+//@   ensures hiStable(iter) && iter.gen == iter.h.gen
+//@   ensures old(iter.gen) == -1 ==> fresh(iter.inner) && iter.inner.n == len(iter.h.a) && (forall j int {iter.inner.seq[j]} :: 0 <= j && j < len(iter.h.a) ==> iter.inner.seq[j] == iter.h.a[j])
+//@   ensures old(iter.gen) == -1 ==> (len(iter.h.a) > 0 ==> result1 && result0 == iter.h.a[0] && iter.inner.pos == 1) && (len(iter.h.a) == 0 ==> !result1 && result0 == zero(result0))
+//@   ensures old(iter.gen) != -1 ==> iter.inner == old(iter.inner) && nextSpec(iter.inner, result0, result1)
+
+//@ func verifClientHeapIterStable
+//@   props C15
+//@   requires h != nil && wfH(h) && !h.indexChanged.tracks && it != nil && it.h == h && hiStable(it) && 0 <= op && op < 6
+//@   ensures true
+func verifClientHeapIterStable[T any](h *Heap[T], it *heapIterator[T], op int, v T, n int) {
+	// whatever a mutator does, an iterator that is under way either still sees its snapshot or
+	// its generation no longer matches (so that its next call panics)
+	switch op {
+	case 0:
+		h.Push(v)
+	case 1:
+		if h.Len() > 0 {
+			h.Pop()
+		}
+	case 2:
+		if 0 <= n && n < h.Len() {
+			h.RemoveAt(n)
+		}
+	case 3:
+		if 0 <= n && n < h.Len() {
+			h.UpdateAt(n, v)
+		}
+	case 4:
+		if n >= 0 {
+			h.Grow(n)
+		}
+	case 5:
+		if n >= 0 {
+			h.Shrink(n)
+		}
+	}
+	//@ assert hiStable(it)
+	//@ assert len(h.a) != old(len(h.a)) && it.gen != -1 ==> it.gen != h.gen
+	return
+}
